@@ -355,6 +355,131 @@ T.update({
  ),
 })
 
+# round 4 (fourth session): changes asked to sit in worker / glue code rather than in the storage
+# modules; suffix d. Only entries whose verify-result.txt exists get a meta.json.
+T.update({
+ "C03d": dict(
+  worktree="/tmp/seed7-C03",
+  summary="mio UDP socket: `Socket<Ipv6>` canonicalises IPv4-mapped sources only when `!(set_only_ipv6 || ipv4_active())` (new `CanonicalSocketAddr::new_native` otherwise) - the belief that IPv4 traffic always goes to the IPv4 socket when there is one",
+  needs="mio back end, IPv4 socket and a dual-stack IPv6 socket (set_only_ipv6 = false) that do not cover the same address/port (e.g. address_ipv4 = 127.0.0.1, address_ipv6 = [::]), and an IPv4 host reaching the IPv6 socket: it is stored as the IPv6 peer ::ffff:a.b.c.d",
+  demo="demo/crates/udp/tests/seeded_demo.rs",
+  caught_by=[caught("C03", "e2e", "stored-address-wrong", note="missed at first: the e2e socket configurations were IPv4 + IPv6-only, IPv4 only, IPv6 only and dual-stack alone. Caught after the configuration 'IPv4 socket on 127.0.0.1 next to a dual-stack IPv6 socket on [::]' was added, with an IPv4 client addressing 127.0.0.2")],
+ ),
+ "C05d": dict(
+  worktree="/tmp/seed7-C05",
+  summary="mio socket worker: `if events.is_empty() { continue; }` right after poll - idle wake-ups no longer advance iter_counter, so update_elapsed / the peer_valid_until refresh only run every 256 *busy* iterations",
+  needs="mio back end and a quiet worker (fewer than 256 readable wake-ups during more than max_connection_age seconds), then re-use of an id issued before: it is still accepted; the same change makes peers announced on a quiet worker expire early (C10, found independently by the C10 agent, byte for byte the same patch)",
+  demo="demo/crates/udp/tests/seeded_demo.rs",
+  caught_by=[caught("C05", "wire-window", "expired-id-accepted-on-wire", note="caught by the sub-check added in this session before the change was read (ids against real time on running trackers); every earlier check set the validator's clock by hand and would have missed it"),
+             caught("C10", "e2e-clock", "reannounce-did-not-refresh / peer-expired-early")],
+ ),
+ "C06d": dict(
+  worktree="/tmp/seed7-C06",
+  summary="mio socket: send_response takes &Response, resend_failed iterates the swapped-out queue by reference instead of draining it - the swap at the end puts every already-resent reply back into the queue",
+  needs="mio back end, network.resend_buffer_max_len > 0 (default 0) and a reply whose sendto fails with EAGAIN / ENOBUFS (never on loopback): that reply is then sent again on every loop iteration for ever",
+  demo="demo/crates/udp/tests/seeded_demo.rs",
+  caught_by=[caught("C06", "send-faults", "reply-duplicated", note="missed by construction before this session (DESIGN listed the resend queue as unreachable on loopback). Caught after the send-faults sub-check was added: a child process hosting the tracker runs under strace, which makes chosen sendto calls fail")],
+ ),
+ "C11d": dict(
+  worktree="/tmp/seed7-C11",
+  summary="AccessListArcSwap::update returns Ok without reading the file when its modification time and size equal those of the file the list in force was loaded from",
+  needs="a reload whose file differs in content but not in mtime and length (same number of entries; deployed with preserved / normalised mtimes, or replaced within one timestamp tick)",
+  demo="demo/crates/udp/tests/seeded_demo.rs",
+  caught_by=[caught("C11", "reload", "decision-differs", note="the generator class 'previous file with one entry replaced, deployed with a fixed modification time and renamed into place' had been added an hour before this run after reading the agent's notes; the older generator rewrote files in place within microseconds and would have caught it only when two independently drawn files happened to have the same length")],
+ ),
+ "C12d": dict(
+  worktree="/tmp/seed7-C12",
+  summary="http_protocol ResponsePeersIpv6Visitor: length check copied from the IPv4 visitor (`len % 6`), data split with chunks(18) / split_at(16)",
+  needs="a tracker reply read by the client library whose peers6 string has a length that is a multiple of 6 but not of 18: slice index panic",
+  demo="demo/crates/http_protocol/tests/seeded_demo.rs",
+  caught_by=[caught("C12", "mutations", "parser-panic", note="missed at first (also by the libFuzzer stage): every generated reply had whole 18-byte entries and mutations broke the bencode length prefix instead of the entry size. Caught after replies with compact peer strings of every byte length (consistent length prefix) were added to the base messages and fuzz seeds")],
+ ),
+ "C13d": dict(
+  worktree="/tmp/seed7-C13",
+  summary="udp_protocol Request::parse_bytes: port 0 accepted when the event is 'stopped'",
+  needs="an announce with event = 3 and port = 0",
+  demo="demo/crates/udp_protocol/tests/seeded_demo.rs",
+  caught_by=[caught("C13", "codec", "decode-accepted-malformed")],
+ ),
+ "C14d": dict(
+  worktree="/tmp/seed7-C14",
+  summary="http_protocol AnnounceResponse::write_bytes: compact peers batched through a 2048-byte stack buffer whose chunk size forgets the 2 port bytes; `write` on the slice truncates silently",
+  needs="an announce reply with more than 341 IPv4 or more than 113 IPv6 peers",
+  demo="demo/crates/http_protocol/tests/seeded_demo.rs",
+  caught_by=[caught("C14", "codec", "encode-mismatch")],
+ ),
+ "C15d": dict(
+  worktree="/tmp/seed7-C15",
+  summary="ws_protocol InMessage::from_ws_message parses in a thread-local buffer that is cleared only after a successful parse",
+  needs="one message that fails to deserialize: every later message decoded on that thread is appended to the garbage and rejected",
+  demo="demo/crates/ws_protocol/tests/seeded_demo.rs",
+  caught_by=[caught("C15", "codec", "id-rejected")],
+ ),
+ "C16d": dict(
+  worktree="/tmp/seed7-C16",
+  summary="http swarm worker: one `torrents.borrow_mut()` hoisted above the match and held across the awaits that send the reply",
+  needs="socket_workers >= 2 and requests of two socket workers interleaving at one swarm worker (or the cleaning timer firing in the window): RefCell already borrowed, swarm worker dies",
+  demo="demo/crates/http/tests/seeded_demo.rs",
+  caught_by=[caught("C16", "http", "tracker-died")],
+ ),
+ "C17d": dict(
+  worktree="/tmp/seed7-C17",
+  summary="ws ConnectionReader::handle_announce_request: entry API replaced by HashMap::insert + comparison with the previous value - a refused second peer id overwrites the connection's clean-up record",
+  needs="a connection that registered peer P1 for a torrent announces it with P2: refused and closed as before, but ConnectionClosed names P2 and P1's entry stays until it expires",
+  demo="demo/crates/ws/tests/seeded_demo.rs",
+  caught_by=[caught("C17", "ws", "closed-connection-left-peers", note="reported by the replay of the kept F12 regression case (second peer id on one connection) at the start of the run")],
+ ),
+ "C20d": dict(
+  worktree="/tmp/seed7-C20",
+  summary="udp cleaning phase 1: `peer_map.try_write()` and `continue` when the torrent is busy - the pass reports no peers and no export line for it",
+  needs="a socket worker holding a torrent's peer-map lock at the instant the cleaning thread reaches it (microseconds per announce): only under concurrent announces on a hot torrent",
+  demo="demo/crates/udp/tests/seeded_demo.rs",
+  caught_by=[caught("C20", "constant-swarm-under-load", "totals-differ-under-load", note="missed at first: histories are single-threaded, the owned-schedule driver of C04 never parks a thread that holds a lock, and free-running bursts rarely hit the window. Caught after the constant-swarm sub-check was added (a fixed peer set re-announced by free-running threads while thousands of cleaning passes run; every pass must report exactly it); also run by C04")],
+ ),
+ "C02d": dict(
+  worktree="/tmp/seed7-C02",
+  summary="udp SmallPeerMap::extract_response_peers lost its limit parameter and returns every inline peer",
+  needs="a torrent in the inline representation with two peers other than the announcer and an effective limit of 1 (numwant 1 or max_response_peers 1)",
+  demo="demo/crates/udp/tests/seeded_demo.rs",
+  caught_by=[caught("C02", "random", "peer-list-too-long")],
+ ),
+ "C04d": dict(
+  worktree="/tmp/seed7-C04",
+  summary="udp scrape collects one shard read guard per requested hash up front and keeps them to the end: recursive read lock on a parking_lot RwLock",
+  needs="a scrape naming two hashes of one shard (or two scrapes naming shards in opposite order) and a writer (announce of an unknown torrent, cleaning phase 2) arriving between the two acquisitions: deadlock",
+  demo="demo/crates/udp/tests/seeded_demo.rs",
+  caught_by=[caught("C04", "programs / deadlock-hunt", "see results_lines")],
+ ),
+ "C08d": dict(
+  worktree="/tmp/seed7-C08",
+  summary="ws storage: the ownership check is applied only while the stored entry's valid_until is still in the future",
+  needs="an entry that has outlived max_peer_age but has not been cleaned yet, and an announce with its peer id from another connection in that window",
+  demo="demo/crates/ws/tests/seeded_demo.rs",
+  caught_by=[caught("C08", "hist", "see results_lines")],
+ ),
+ "C09d": dict(
+  worktree="/tmp/seed7-C09",
+  summary="ws handle_offers trims the sender's expecting_answers map from the front to max_offers entries",
+  needs="one peer accumulating more than max_offers forwarded, unanswered, unexpired offers over several announces, then an answer to one of the oldest",
+  demo="demo/crates/ws/tests/seeded_demo.rs",
+  caught_by=[caught("C09", "signalling / small-scope", "see results_lines")],
+ ),
+ "C18d": dict(
+  worktree="/tmp/seed7-C18",
+  summary="udp run(): the start-up validation of max_response_peers computes the largest announce reply with the 8-byte scrape header instead of the 20-byte announce header",
+  needs="max_response_peers = 1363 (mio, IPv4) or the corresponding boundary values for IPv6 / io_uring: accepted, and the full reply is 12 bytes too long for the buffer",
+  demo="demo/crates/udp/tests/seeded_demo.rs",
+  caught_by=[caught("C18", "configs", "reply-dropped")],
+ ),
+ "C19d": dict(
+  worktree="/tmp/seed7-C19",
+  summary="udp run(): workers notify the supervising thread after their closure has returned; the supervision loop blocks in recv_timeout(60 s) instead of polling every 5 s",
+  needs="a worker that panics (the notification is ordinary code after f() and is skipped by unwinding), or the prometheus thread stopping: run() notices only at the 60 s fallback",
+  demo="demo/crates/udp/tests/seeded_demo.rs",
+  caught_by=[caught("C19", "faults", "tracker-kept-running")],
+ ),
+})
+
 def main():
     results = open(os.path.join(V, "mutants/RESULTS.txt")).read().splitlines()
     for pid, t in T.items():
@@ -367,7 +492,7 @@ def main():
             continue
         res = open(vr).read().strip()
         prop = pid[:3]
-        n = "3" if pid.endswith("c") else ("2" if pid.endswith("b") else "1")
+        n = "4" if pid.endswith("d") else "3" if pid.endswith("c") else ("2" if pid.endswith("b") else "1")
         lines = [l for l in results if re.search(r"\b%s(\+C\d\d)*-seeded%s" % (prop, n), l) or re.search(r"C\d\d\+%s-seeded%s" % (prop, n), l) or (n == "1" and ("seeded-%s" % prop.lower()) in l)]
         meta = {
             "property": prop,
